@@ -86,6 +86,41 @@ type sender struct {
 	port  uint16
 }
 
+// injectFragmented delivers an IPv4 datagram as nfrag fragments in the given order.
+func (s sender) injectFragmented(x *host, dst4 [4]byte, dport uint16, payload []byte, ipid uint16, nfrag int, r *fw.Rand) {
+	u := rfc.UDP{SrcPort: s.port, DstPort: dport, Payload: payload}
+	whole := u.Bytes4(s.addr4, dst4, true)
+	blocks := (len(whole) + 7) / 8
+	if nfrag > blocks {
+		nfrag = blocks
+	}
+	// cut points in 8-byte blocks
+	cuts := map[int]bool{}
+	for len(cuts) < nfrag-1 {
+		cuts[1+r.Intn(blocks-1)] = true
+	}
+	var pts []int
+	for b := 1; b < blocks; b++ {
+		if cuts[b] {
+			pts = append(pts, b*8)
+		}
+	}
+	pts = append(pts, len(whole))
+	var frags [][]byte
+	start := 0
+	for _, e := range pts {
+		f := rfc.IPv4{TTL: 64, Proto: rfc.ProtoUDP, ID: ipid, Src: s.addr4, Dst: dst4, FragOff: uint16(start / 8), Payload: whole[start:e]}
+		if e < len(whole) {
+			f.Flags = 1
+		}
+		frags = append(frags, f.Bytes(true))
+		start = e
+	}
+	for _, i := range r.Perm(len(frags)) {
+		x.h.L.Inject(ipv4.ProtocolNumber, frags[i], "")
+	}
+}
+
 func (s sender) inject(x *host, dst4 [4]byte, dst6 [16]byte, dport uint16, payload []byte, ipid uint16) {
 	u := rfc.UDP{SrcPort: s.port, DstPort: dport, Payload: payload}
 	if s.v6 {
@@ -259,8 +294,23 @@ func receiveScenario(k int) {
 			ep.Shutdown(tcpip.ShutdownRead)
 			rep = append(rep, "shutdown(read)")
 		}
-		s.inject(x, dst4, dst6, dport, mkPayload(s.id, a.counter, ln), uint16(i))
-		rep = append(rep, fmt.Sprintf("arrival %d/%d len %d v6=%v dport=%d dst=%v match=%v", s.id, a.counter, ln, s.v6, dport, dst4, match))
+		if closedAt >= 0 && i > closedAt && r.Chance(1, 6) {
+			// the application goes on using the write side: (re)connecting must not reopen reception
+			e := ep.Connect(tcpip.FullAddress{Addr: tcpip.Address(senders[0].addr4[:]), Port: senders[0].port})
+			rep = append(rep, fmt.Sprintf("connect after shutdown(read) -> %v", e))
+			if e == nil && kind != "connected" && np == ipv4.ProtocolNumber {
+				kind = "connected"
+			}
+		}
+		nfrag := 1
+		if !s.v6 && ln >= 64 && r.Chance(1, 4) {
+			nfrag = 2 + r.Intn(24)
+			s.injectFragmented(x, dst4, dport, mkPayload(s.id, a.counter, ln), uint16(1000+i), nfrag, r)
+			run.Count("datagrams_injected_as_fragments", 1)
+		} else {
+			s.inject(x, dst4, dst6, dport, mkPayload(s.id, a.counter, ln), uint16(i))
+		}
+		rep = append(rep, fmt.Sprintf("arrival %d/%d len %d v6=%v dport=%d dst=%v fragments=%d match=%v", s.id, a.counter, ln, s.v6, dport, dst4, nfrag, match))
 		arrivals = append(arrivals, a)
 		if match {
 			expectQ = append(expectQ, a)
